@@ -32,6 +32,7 @@ LEANDIR = os.path.join(VERIF, "lean")
 sys.path.insert(0, VERIF)
 sys.path.insert(0, os.path.join(VERIF, "tools"))
 PY = "/venv/bin/python"
+REPO = os.environ.get("VERIF_REPO", "/repo")   # trials of seeded changes run against a scratch copy; registered checks use /repo
 ALLOWED_AXIOMS = {"propext", "Classical.choice", "Quot.sound"}
 FORBIDDEN = re.compile(r"\bsorry\b|\badmit\b|^\s*axiom\s|native_decide|bv_decide|implemented_by|\bunsafe\s|maxHeartbeats\s+0\b")
 TRUSTED_BASE = [
@@ -121,8 +122,8 @@ def lake_build(ctx, targets, timeout=1500):
 
 def validate_translator(ctx):
     """Route A vs Route B over all dispatch entries; cached on the content hash of everything involved."""
-    src = glob.glob("/repo/src/vector/_compute/*/*.py") + glob.glob("/repo/src/vector/_compute/*.py") + [
-        "/repo/src/vector/_methods.py", os.path.join(VERIF, "tools", "translate.py"), os.path.join(VERIF, "tools", "tracer.py"),
+    src = glob.glob(REPO + "/src/vector/_compute/*/*.py") + glob.glob(REPO + "/src/vector/_compute/*.py") + [
+        REPO + "/src/vector/_methods.py", os.path.join(VERIF, "tools", "translate.py"), os.path.join(VERIF, "tools", "tracer.py"),
         os.path.join(LEANDIR, "VectorModel", "Exec", "Sym.lean"), os.path.join(LEANDIR, "VectorModel", "Driver", "RouteA.lean"),
         os.path.join(LEANDIR, "VectorModel", "Prim", "Exec.lean"), os.path.join(LEANDIR, "VectorModel", "Prim", "Keys.lean")]
     key = file_hash(src)
@@ -180,7 +181,7 @@ def theorems_in(path):
         m = re.match(r"\s*end\s+(\S+)", line)
         if m and ns and ns[-1] == m.group(1):
             ns.pop()
-        m = re.match(r"\s*(?:private\s+|protected\s+)?theorem\s+(\S+)", line)
+        m = re.match(r"\s*(?:protected\s+)?theorem\s+(\S+)", line)
         if m:
             out.append((".".join(ns + [m.group(1)]), i))
     return out
@@ -230,9 +231,9 @@ def audit(ctx, thm_files):
         problems.append("audit-failed: " + (out + err)[-300:])
         return names, {}, problems
     axioms = {}
-    for m in re.finditer(r"'([^']+)' depends on axioms: \[([^\]]*)\]", out.replace("\n", " ")):
+    for m in re.finditer(r"'(\S+)' depends on axioms: \[([^\]]*)\]", out.replace("\n", " ")):
         axioms[m.group(1)] = sorted(a.strip() for a in m.group(2).split(","))
-    for m in re.finditer(r"'([^']+)' does not depend on any axioms", out):
+    for m in re.finditer(r"'(\S+)' does not depend on any axioms", out):
         axioms[m.group(1)] = []
     for n in names:
         if n not in axioms:
@@ -260,7 +261,7 @@ def load_known():
 
 def run_code(code, timeout=300):
     """run a replay snippet against the real code; -> (violates: bool|None, output)"""
-    rc, out, err, _ = sh([PY, "-c", code], timeout, cwd="/repo")
+    rc, out, err, _ = sh([PY, "-c", code], timeout, cwd=REPO)
     if rc == 0:
         return False, out
     if "AssertionError" in err:
@@ -327,6 +328,10 @@ def main():
                     ft = failed_theorems(log, H.THEOREM_FILES)
                     broken += [f"lean-build-failed: {x}" for x in (ft or [summarize_lean_errors(log)])]
                 else:
+                    for opt in getattr(H, "FINDINGS_TARGETS", []):
+                        rc2, _ = lake_build(ctx, [opt])
+                        ctx.notes.append(f"optional witness file {opt}: " + ("builds (the recorded findings are still provable)" if rc2 == 0
+                                         else "no longer builds (a recorded finding may have been repaired); not an obligation"))
                     ctx.log("axiom audit")
                     names, axioms, probs = audit(ctx, H.THEOREM_FILES)
                     broken += probs
